@@ -329,6 +329,65 @@ def parse_dispatch():
     return modules
 
 
+def parse_param_structs(modules):
+    """For every dispatched handler: the members its parameter struct declares (name, Rust type), so that the
+    harness can aim boundary values at every one of them.  Informational for the generator only (not part
+    of the proved tables): a handler whose parameters cannot be found simply gets generic members."""
+    src = _strip_comments(_read("control.rs"))
+    cut = src.find("#[cfg(test)]\nmod tests")
+    if cut > 0:
+        src = src[:cut]
+    structs = {}
+    for m in re.finditer(r"struct\s+(\w+Params)\s*\{([^}]*)\}", src):
+        fields, aliases = [], []
+        for part in re.split(r",\s*\n", m.group(2)):
+            part = part.strip().rstrip(",")
+            if not part:
+                continue
+            aliases += re.findall(r'alias\s*=\s*"([^"]+)"', part)
+            decl = re.sub(r"#\[[^\]]*\]", "", part).strip()
+            fm = re.fullmatch(r"(?:pub\s+)?(?:r#)?(\w+)\s*:\s*(.+)", decl, re.S)
+            if fm:
+                ty = re.sub(r"\s+", "", fm.group(2))
+                fields.append([fm.group(1), ty])
+                for a in aliases:
+                    fields.append([a, ty])
+                aliases = []
+        structs[m.group(1)] = fields
+    out = {}
+    for mod in modules:
+        for h in mod["handlers"]:
+            try:
+                body = fn_body(src, h["fn"])
+            except TranslateError:
+                continue
+            fields = []
+            # the handler's own body, and one level of the helpers it calls (members may be read in a helper)
+            bodies = [body]
+            for callee in sorted(set(re.findall(r"\b([a-z_]\w*)\s*\(", body))):
+                if callee.startswith("handle_") or callee == h["fn"]:
+                    continue
+                if len(re.findall(r"\bfn\s+" + re.escape(callee) + r"\s*(?:<[^>]*>)?\s*\(", src)) == 1:
+                    try:
+                        bodies.append(fn_body(src, callee))
+                    except TranslateError:
+                        pass
+            for b in bodies:
+                sm = re.search(r"\b(\w+Params)\b", b)
+                if sm and sm.group(1) in structs:
+                    for f in structs[sm.group(1)]:
+                        if not any(x[0] == f[0] for x in fields):
+                            fields.append(f)
+                for g in re.findall(r'\.get\("([^"\\]+)"\)', b):
+                    if not any(f[0] == g for f in fields):
+                        fields.append([g, "any"])
+            out[h["name"]] = fields
+    # every member name any handler or helper reads, for handlers whose own members moved into a helper
+    pool = sorted({f[0] for fs in structs.values() for f in fs} | set(re.findall(r'\.get\("([^"\\]+)"\)', src)))
+    out["*"] = [[nm, "any"] for nm in pool]
+    return out
+
+
 def lean_str(s):
     if not re.fullmatch(r"[ -!#-\[\]-~]*", s):
         raise TranslateError(f"string {s!r} needs escaping; refusing")
@@ -439,6 +498,7 @@ def translate_control():
         },
         "debug_requests": debug,
         "modules": modules,
+        "params": parse_param_structs(modules),
     }
     with open(TABLES, "w") as f:
         json.dump(tables, f, indent=1)
@@ -459,8 +519,8 @@ SPEC = {
     # `cases` = number of scenario cases AFTER the exhaustive product (every dispatched name and 11
     # unknown/garbled names x 17 credentials x {token set, unset} x {debug on, off} = one case each)
     "tiers": {
-        "quick": {"cases": 640, "extra": {"tables": "C18.tables.json"}},
-        "thorough": {"cases": 40000, "extra": {"tables": "C18.tables.json"}},
+        "quick": {"cases": 880, "extra": {"tables": "C18.tables.json"}},
+        "thorough": {"cases": 44000, "extra": {"tables": "C18.tables.json"}},
     },
     # A disagreement in which the implementation does MORE than the proved model allows (an effect, or a
     # handler's answer, where the model refuses) is a failing input of the property and is reported by the
@@ -476,7 +536,11 @@ SPEC = {
             "drawn from a per-type palette of effective / rejected / garbage values) or a scenario (garbled byte "
             "streams, config.set key combinations, token rotation/removal, debug switch, revoke, full pairing flow "
             "with role sanitising, clock advance over token/code expiry, two principals on one connection, runtime restart "
-            "that re-opens the pairing store from its file after revoke / claim / expiry / pair.start); "
+            "that re-opens the pairing store from its file after revoke / claim / expiry / pair.start, several pairings claimed "
+            "in the same clock second (shared id) then revoked by id, and a boundary-parameter stream: every member of every "
+            "request type's parameter struct (read from the Rust source) with 0, 1, -1, u32/u64::MAX, i64::MIN, 1e12, floats, "
+            "empty / 100 kB / NUL strings, 10k-element and nested arrays, wrong JSON types); all cases run in child "
+            "processes with an address-space limit so that a dead connection thread or a process abort is observed; "
             "non-trivial = the line was refused by a gate (unauthorized / forbidden / debug disabled / unsupported / "
             "connection closed) or changed at least one probe; distinct = by hash of the case's operation lines",
     "trusted_base": [
@@ -517,7 +581,9 @@ MANIFEST = {
                   "handler present (c18_effect_needs_role, lifted to arbitrary histories with clock ticks); with a token "
                   "configured, requests without the token or a live pairing token get the bare 'unauthorized' reply and change "
                   "nothing, over any history of lines, clock ticks and runtime restarts (c18_unauth_silent, c18_history_unauth_silent, "
-                  "c18_credential_none_iff; c18_reload_preserves_credentials: re-opening the pairing store changes no credential); every "
+                  "c18_credential_none_iff; c18_reload_preserves_credentials: re-opening the pairing store changes no credential; "
+                  "c18_revoke_disables_every_token_with_id / c18_revoked_id_maps_to_no_role: ids are pair-<second>, not unique, and "
+                  "revoking an id kills every token that carries it); every "
                   "dispatched name is classified, listed in the permission table and unique, and every mutating one requires "
                   "more than viewer for all parameters (decide over the regenerated tables + c18_mutating_above_viewer); "
                   "config.set needs engineer, admin for credential/auth-mode keys; the debug list equals the names of the "
@@ -582,13 +648,15 @@ def extra(ctx):
             continue
         ic, ifx = _class_of(d["impl"])
         mc, mfx = _class_of(d["model"])
-        more = (ic == "handled" and mc in REFUSALS) or bool(ifx - mfx) or ic in ("hang", "garbage-reply") \
-            or (ic == "closed" and mc != "closed")
+        # every line gets exactly one reply (c18: `step` is total): a line without one -- the connection thread
+        # died (closed), the whole process aborted (crash), nothing came (hang) -- is a failing input
+        more = (ic == "handled" and mc in REFUSALS) or bool(ifx - mfx - {"*"}) or ic in ("hang", "garbage-reply", "crash", "closed")
         if more:
             f = _fields(d["op"])
             res["oracle_failures"].append({
-                "what": "the implementation performed or revealed more than the role gate allows (or crashed/hung): "
-                        f"impl '{d['impl']}' vs proved model '{d['model']}'",
+                "what": ("the request got NO REPLY (connection thread died / process aborted / hang): " if ic in ("hang", "crash", "closed")
+                         else "the implementation performed or revealed more than the role gate allows: ")
+                        + f"impl '{d['impl']}' vs proved model '{d['model']}'",
                 "case": d["case"], "seed": d.get("seed"), "tier": d.get("tier"), "op": d["op"],
                 "request_line": _unhex(f.get("raw", "-")), "impl": d["impl"], "expected": d["model"],
                 "case_lines": d.get("case_lines", []),
@@ -653,6 +721,27 @@ def extra(ctx):
         w = line.split()
         if w and w[0] == "class":
             classes[_unhex(w[1])] = {kv.split("=")[0]: kv.split("=")[1] for kv in w[2:]}
+    # boundary-parameter lines: whatever the handler made of the values, what changed must stay within what the
+    # classification allows for that request type
+    boundary_lines = 0
+    for c in cases:
+        last_req = None
+        for l in c.lines:
+            if l.startswith("req "):
+                last_req = l
+            elif l.startswith("obs ") and last_req:
+                boundary_lines += 1
+                f = _fields(last_req)
+                t = _unhex(f.get("type", "-"))
+                obs = set() if l.strip() == "obs fx=-" else set(l.split("fx=", 1)[1].split(","))
+                allowed = set((classes.get(t, {}).get("effects") or "-").split(",")) - {"-"}
+                if obs - allowed and len(res["oracle_failures"]) < 40:
+                    res["oracle_failures"].append({
+                        "what": f"request '{t}' with boundary parameters changed {sorted(obs - allowed)}, which its classification "
+                                f"({sorted(allowed)}) does not allow", "case": c.n, "seed": ctx["seed"], "tier": ctx["tier"],
+                        "op": last_req, "request_line": _unhex(f.get("raw", "-"))[:2000], "case_lines": c.lines,
+                    })
+    res["coverage"]["boundary_parameter_lines"] = boundary_lines
     seen_handled, seen_effect, by_class, lossy = set(), set(), {}, 0
     per_type = {}
     for c in cases:
@@ -719,6 +808,14 @@ def extra(ctx):
             "expect": ["debug-evaluate:id=2_handled", "debug-evaluate-then-schema:id=3_handled",
                        "debug-evaluate-metadata-lock-free:true"],
         },
+    }
+    CORPUS["C18-debug-evaluate-stack-overflow"] = {
+        "what": "debug.evaluate with a long / deeply nested expression must be answered (the process must not abort)",
+        "expect": ["debug-evaluate-deep:id=6_handled"],
+    }
+    CORPUS["C18-config-duration-overflow"] = {
+        "what": "config.set of a millisecond value above i64::MAX / 1e6 must be answered (the connection thread must not panic)",
+        "expect": ["config-duration-overflow:id=7_handled"],
     }
     if observed:
         for fid, spec in CORPUS.items():
